@@ -21,10 +21,10 @@ TRANSCRIBED = {
     # round 7: setup_for_episode, create_folder, create_file, get_file, pre_timestep are TRANSLATED (fsxlate, Props/C15Create.lean);
     # Folder.pre_timestep / File.pre_timestep are checked to be structurally inert by fsxlate._check_inert_methods
     # second batch: copy_file, delete_file_by_id, delete_folder_by_id, get_folder_by_id, Folder.get_file_by_id / remove_file_by_id / remove_all_files
-    ("FileSystem", FS): ["__init__", "access_file", "apply_timestep", "describe_state", "move_file", "scan"],
+    # third batch: FileSystem.apply_timestep / Folder.apply_timestep translated; Folder._scan_timestep / scan / repair / corrupt checked inert
+    ("FileSystem", FS): ["move_file"],
     # restore_file and add_file are tied semantically instead (extract/fsxlate.py, C15_gen_restore_file / C15_gen_add_file)
-    ("Folder", FOLDER): ["_scan_timestep", "scan", "repair", "corrupt",
-                         "apply_timestep", "describe_state"],
+    ("Folder", FOLDER): [],
     # File.restore/delete/scan/repair/corrupt/check_hash and Folder.restore/delete/check_hash are translated onto records that
     # carry health (extract/fsxlate.py, C15_gen_file_methods / C15_gen_folder_methods)
     ("File", FILE): [],
